@@ -14,7 +14,7 @@ class C10(Spec):
     prop = "C10"
     needs_factx = True
     extra_generated = ["Frames.lean"]
-    lean_modules = ["SonicSpec.Props.C10"]
+    lean_modules = ["SonicSpec.Props.C10", "SonicSpec.Props.C10Layout"]
     level = "proof"
     rule = ("pc-value tables: GetPcspTable-shaped and random well-formed tables (varint length boundaries 127/128, 16383/16384, "
             "2^21, 2^28; int32 extremes and wrap) plus a separate stream of tables that leave the precondition (repeated value, "
